@@ -117,7 +117,7 @@ func rootAlphabet() []cid.Cid {
 	return out
 }
 
-var topics = []string{"", "/indexer/ingest/mainnet", "tópico/ユニコード", strings.Repeat("t", 256)}
+var topics = []string{"", "/indexer/ingest/mainnet", "tópico/ユニコード", strings.Repeat("t", 256), strings.Repeat("t", 1000), strings.Repeat("/long-topic", 600)}
 
 // headServer serves a body verbatim as the head.
 type headServer struct {
@@ -145,7 +145,7 @@ func (h *headServer) ServeHTTP(w http.ResponseWriter, r *http.Request) {
 
 func TestCheck(t *testing.T) {
 	r := vp.New("C03", "exploration",
-		"publisher side: every root of a 10-CID alphabet (v0, v1 x 3 codecs x 3 hash functions) x 4 topics (none, ascii, unicode, 256 bytes) x key types: the real Publisher's /head answer is validated by the reference; one publisher taken through every ordered pair of roots (root, other root, first root again), the head verified after every change. Client side: for each of a corpus of valid encoded heads (key types x topics) served verbatim to the real Syncer.GetHead (libp2p-HTTP discovery and plain HTTP): every single-byte substitution, every truncation, and field-level alterations (CID replaced, topic added/removed/changed, key of another identity of the same and another type, signature of another head, key+signature swapped between two valid heads, re-signed by another identity, empty key, empty signature); every field-level alteration served cold (fresh Syncer) and after each of 5 histories of valid heads on a reused Syncer ([valid], [other root], [valid, other], [other, valid], [valid, valid]), each altered head served up to 3 times in a row, followed by both valid heads again; every byte-level alteration right after the valid head on a reused Syncer (every 8th also cold); every alteration class also through Subscriber.SyncAdChain, cold and after a healthy sync with a head query (altered head derived from the head served before, and from the current one), with the publisher named in the ID field of the AddrInfo and named only by a /p2p component of its addresses. Non-trivial: every altered head. Distinct = distinct (head, alteration).",
+		"publisher side: every root of a 10-CID alphabet (v0, v1 x 3 codecs x 3 hash functions) x 6 topics (none, ascii, unicode, 256, 1000 and 6600 bytes) x key types: the real Publisher's /head answer is validated by the reference and must be accepted, with the same CID and signer, by the library's own head.Decode / Validate; one publisher taken through every ordered pair of roots (root, other root, first root again), the head verified after every change. Client side: for each of a corpus of valid encoded heads (key types x topics) served verbatim to the real Syncer.GetHead (libp2p-HTTP discovery and plain HTTP): every single-byte substitution, every truncation, and field-level alterations (CID replaced, topic added/removed/changed, key of another identity of the same and another type, signature of another head, key+signature swapped between two valid heads, re-signed by another identity, empty key, empty signature); every field-level alteration served cold (fresh Syncer) and after each of 5 histories of valid heads on a reused Syncer ([valid], [other root], [valid, other], [other, valid], [valid, valid]), each altered head served up to 3 times in a row, followed by both valid heads again; every byte-level alteration right after the valid head on a reused Syncer (every 8th also cold); every alteration class also through Subscriber.SyncAdChain, cold and after a healthy sync with a head query (altered head derived from the head served before, and from the current one), with the publisher named in the ID field of the AddrInfo and named only by a /p2p component of its addresses. Non-trivial: every altered head. Distinct = distinct (head, alteration).",
 		"reference validator (generic DAG-JSON decode + libp2p crypto) is the oracle; an altered encoding is required to be rejected only when the reference rejects it (byte changes that alter no value are not alterations)",
 		"announce-triggered syncs do not query the head and are out of this property's reach",
 		"ECDSA signatures are randomised by the signer (libp2p/crypto), so the encoded ECDSA head, and with it the number of byte positions enumerated, varies by a few bytes between runs; every other fixture is deterministic",
@@ -191,6 +191,26 @@ func TestCheck(t *testing.T) {
 				c, signer, ok, why := refValidate(rec.Body.Bytes(), id.ID)
 				if !ok || !c.Equals(root) || signer != id.ID {
 					r.Violation("publisher:served-head-does-not-verify:"+kt, key, fmt.Sprintf("head served for root %s topic %q: reference says ok=%v (%s) cid=%s signer=%s", root, topic, ok, why, c, signer), nil)
+					continue
+				}
+				// and the library's own reader accepts what the library's
+				// publisher served (a sync client does exactly this)
+				var lsigner peer.ID
+				var lcid cid.Cid
+				var lerr error
+				if pn, pm := vp.Guard(func() {
+					var sh *head.SignedHead
+					if sh, lerr = head.Decode(bytes.NewReader(rec.Body.Bytes())); lerr == nil {
+						if lsigner, lerr = sh.Validate(); lerr == nil {
+							lcid = sh.Head.(cidlink.Link).Cid
+						}
+					}
+				}); pn {
+					r.Violation("publisher:panic", key, "decoding the served head: "+firstLine(pm), nil)
+					continue
+				}
+				if lerr != nil || lsigner != id.ID || !lcid.Equals(root) {
+					r.Violation("publisher:served-head-rejected-by-the-library-reader:"+kt, key, fmt.Sprintf("head served for root %s, topic of %d bytes (%d bytes encoded): head.Decode/Validate gives err=%v signer=%s cid=%s", root, len(topic), rec.Body.Len(), lerr, lsigner, lcid), nil)
 					continue
 				}
 				// the topic that was signed is the one configured
